@@ -20,7 +20,7 @@ RULE = ("ttl {1,1.5,4,3600,none} x delivery instant {E-1s,E-1us,E,E+1us,E+1s} x 
 ASSUMPTIONS = ["Redis and RabbitMQ are wire-level fakes", "virtual time; exact instants only at zero wire latency (redis polls priorities with 0.1 s sleeps, so its instants are approximate; the oracle uses the observed instants)",
                "with wire latency l the execution allowance after E is 2l + 0.35 s"]
 EVAL_COUNTER = "messages_judged"
-REQUIRED = ["messages_judged", "executed_live", "dead_lettered_expired", "dead_retrieved", "boundary_exact", "kind_retry_cross", "kind_retry_late", "kind_resched", "priority_high", "priority_low", "timezone_offset_runs"]
+REQUIRED = ["messages_judged", "executed_live", "dead_lettered_expired", "dead_retrieved", "boundary_exact", "kind_retry_cross", "kind_retry_late", "kind_resched", "priority_high", "priority_low", "timezone_offset_runs", "arrivals_at_a_waiting_consumer"]
 CASE_TIMEOUT = 120
 
 TTLS = [1.0, 1.5, 4.0, 3600.0, 90000.0, 172800.0, None]
@@ -51,6 +51,14 @@ def gen_cases(tier, seed):
                     if tier == "quick" and lat is not None and it["kind"] not in ("immediate", "retry_cross", "retry_late", "resched"):
                         continue
                     cases.append({"broker": broker, "latency": lat, "seed": rnd.randrange(10**6), "phase": ph if ph is not None else rnd.choice([0.0, 0.25, 0.5, 0.999]), **it})
+    # the expired (or still live) message reaches a queue whose consumer is ALREADY waiting: a job built earlier and enqueued
+    # late, and a message handed back by another holder after its time-to-live ran out in flight
+    for broker in ("mem", "redis", "rabbit"):
+        for kind in ("late_enqueue", "late_handback"):
+            for ttl in (1.0, 1.5):
+                for d in ((-0.4, 0.3, 1.2) if tier == "quick" else (-0.4, -0.001, 0.001, 0.3, 1.2, 2.6)):
+                    cases.append({"broker": broker, "latency": None if broker == "mem" else 0.004, "seed": rnd.randrange(10**6), "phase": rnd.choice([0.0, 0.25, 0.5, 0.999]),
+                                  "ttl": ttl, "kind": kind, "delta": d})
     # the same property on a machine whose local time is not UTC (timestamps are naive local datetimes)
     for tz in ("AAA-5", "BBB5", "CCC-0:30"):
         for mode in ("live_recurring", "expired_after_reschedule"):
@@ -114,9 +122,38 @@ async def scenario(loop, case, out, stats, fps, samples):
         elif kind == "resched":
             kw["deferred_by"] = timedelta(seconds=2.0)
         job = w.job("act", "m1", script, **kw)
-        await job.enqueue()
-        E = (job.timestamp + ttl_td) if ttl_td is not None else None
-        tE = vt(E) if E is not None else None
+        late_task = None
+        if kind in ("late_enqueue", "late_handback"):
+            E = job.timestamp + ttl_td
+            tE = vt(E)
+            late_info = {}
+
+            async def late_action():
+                # runs next to an idle worker whose consumer is already waiting in consume()
+                if kind == "late_handback":
+                    other = w.conn.message_broker.get_consumer("default", None, None, MessageCategory.NORMAL)
+                    await other.start()
+                    await job.enqueue()
+                    key, _payload, _params = await asyncio.wait_for(other.consume(), 5.0)
+                    late_info["taken"] = loop.time()
+                    late_info["start_worker"].set()
+                    await asyncio.sleep(max(0.0, tE + delta - loop.time()))
+                    late_info["t"] = loop.time()
+                    await w.conn.message_broker.reject(key)
+                    await other.finish()
+                else:
+                    late_info["start_worker"].set()
+                    await asyncio.sleep(max(0.0, tE + delta - loop.time()))
+                    late_info["t"] = loop.time()
+                    await job.enqueue()
+
+            late_info["start_worker"] = asyncio.Event()
+            late_task = loop.create_task(late_action())
+            await asyncio.wait_for(late_info["start_worker"].wait(), 10.0)
+        else:
+            await job.enqueue()
+            E = (job.timestamp + ttl_td) if ttl_td is not None else None
+            tE = vt(E) if E is not None else None
         # where the worker is switched on
         if kind in ("immediate", "delayed_before") and ttl is not None:
             await asyncio.sleep(0.01)
@@ -140,7 +177,8 @@ async def scenario(loop, case, out, stats, fps, samples):
         loop.step_hook = probe
         worker = w.worker([r], tasks_limit=10, graceful_shutdown_time=3.0, handle_signals=[__import__("signal").SIGUSR1])
         horizon = {"immediate": 2.5, "delayed_before": 6.0, "delayed_after": (ttl or 0) + 4.0, "retry_cross": (ttl or 0) + 5.0,
-                   "retry_late": 0.6 * (ttl or 0) + 5.0, "retry_inside": 3.0, "resched": 9.0}[kind]
+                   "retry_late": 0.6 * (ttl or 0) + 5.0, "retry_inside": 3.0, "resched": 9.0,
+                   "late_enqueue": (ttl or 0) + max(delta, 0) + 3.0, "late_handback": (ttl or 0) + max(delta, 0) + 3.0}[kind]
         if ttl is not None and ttl > 100 and kind == "retry_inside":
             pass
         if ttl is not None and ttl > 100 and kind == "delayed_after":
@@ -158,6 +196,11 @@ async def scenario(loop, case, out, stats, fps, samples):
             horizon = 4.0
         info = await run_worker(w, worker, horizon=horizon, poll=0.25)
         loop.step_hook = None
+        if late_task is not None:
+            try:
+                await asyncio.wait_for(late_task, 5.0)
+            except Exception as exc:  # noqa: BLE001
+                out.append(V("harness_or_api_error", broker, kind, f"late action failed: {exc!r}"))
         if info["exc"] is not None or not info["returned"]:
             out.append(V("worker_died", broker, "run", f"{info}"))
         await asyncio.sleep(0.3)
@@ -227,6 +270,15 @@ async def scenario(loop, case, out, stats, fps, samples):
             out.append(V("live_dead_lettered" if place == ["dead"] else "live_not_delivered", broker, ctx, f"ttl={ttl}s, worker on 1 s before expiry: not executed, place {place}"))
         if kind in ("immediate", "delayed_before") and tE is not None and delta > 0.5 and place != ["dead"] and not starts:
             out.append(V("expired_not_dead_lettered", broker, ctx, f"ttl={ttl}s, worker on 1 s after expiry: place {place}"))
+        if kind in ("late_enqueue", "late_handback"):
+            stats["arrivals_at_a_waiting_consumer"] += 1
+            t_arr = late_info.get("t")
+            if t_arr is None:
+                out.append(V("harness_or_api_error", broker, kind, "the late action never happened"))
+            elif t_arr > tE + allowance + 1e-6 and place != ["dead"] and not starts:
+                out.append(V("expired_not_dead_lettered", broker, ctx, f"ttl={ttl}s: reached the queue of a waiting consumer at +{t_arr:.6f}, {t_arr - tE:.6f}s after its expiry: place {place} {horizon}s later"))
+            elif t_arr < tE - 0.2 - allowance and not starts:
+                out.append(V("live_dead_lettered" if place == ["dead"] else "live_not_delivered", broker, ctx, f"ttl={ttl}s: reached the queue of a waiting consumer at +{t_arr:.6f}, {tE - t_arr:.6f}s before its expiry: never executed, place {place}"))
         if ttl is None and not starts:
             out.append(V("live_not_delivered", broker, ctx, f"no ttl: never executed; place {place}"))
         # (3) dead-lettered stays retrievable
